@@ -834,6 +834,10 @@ class X12ContextReader(object):
                     tpath = '/ISA_LOOP/GS_LOOP/GS'
                     self.x12_map_node = cur_map.getnodebypath(tpath)
                     #self.walker.forceWalkCounterToLoopStart('/ISA_LOOP/GS_LOOP', '/ISA_LOOP/GS_LOOP/GS')
+                    if orig_node is not None and pop_to_parent_loop(orig_node).id == 'ISA_LOOP':
+                        # The GS segment is not located by the walker: entering the first
+                        # group of an interchange pushes the GS loop
+                        push_loops = [self.x12_map_node.parent]
                 elif seg_id == 'BHT':
                     if vriic in ('004010X094', '004010X094A1'):
                         tspc = seg.get_value('BHT02')
